@@ -484,6 +484,11 @@ func (c *Ctx) bin(op Op, a, b *Term) *Term {
 				if a.Op == OZext && a.Args[0].Sort.W <= k {
 					return a
 				}
+				// x & (2^k-1) = zext(x[k-1:0]) for the machine word sizes: truncate-then-widen
+				// idioms (uint64(uint32(x)), x & 0xffffffff) get one canonical form
+				if (k == 8 || k == 16 || k == 32) && k < w {
+					return c.Zext(c.Extract(a, k-1, 0), w-k)
+				}
 			}
 		}
 	case OBOr:
@@ -729,8 +734,8 @@ func (c *Ctx) Extract(a *Term, hi, lo int) *Term {
 			return c.Sext(c.Extract(a.Args[0], xw-1, lo), hi-xw+1)
 		}
 	case OBAnd, OBOr, OBXor:
-		// push extraction through bitwise ops when one side is constant
-		if a.Args[1].IsConst() {
+		// push extraction through bitwise ops (bit-wise: always sound)
+		if a.Args[1].IsConst() || lo == 0 {
 			return c.bin(a.Op, c.Extract(a.Args[0], hi, lo), c.Extract(a.Args[1], hi, lo))
 		}
 	case OAdd, OSub, OMul:
@@ -739,7 +744,7 @@ func (c *Ctx) Extract(a *Term, hi, lo int) *Term {
 			return c.bin(a.Op, c.Extract(a.Args[0], hi, 0), c.Extract(a.Args[1], hi, 0))
 		}
 	case OIte:
-		if a.Args[1].IsConst() || a.Args[2].IsConst() {
+		if a.Args[1].IsConst() || a.Args[2].IsConst() || (lo == 0 && (a.Args[1].Op == OZext || a.Args[2].Op == OZext)) {
 			return c.Ite(a.Args[0], c.Extract(a.Args[1], hi, lo), c.Extract(a.Args[2], hi, lo))
 		}
 	}
